@@ -36,7 +36,17 @@ func (w *World) join(f *World, buf *bytes.Buffer) {
 // mode 0: the read-only window is a plain Slice; mode 1: it was extended by AppendSample after it was sliced (its
 // header changed after construction and nothing has looked at it since); mode 2: as 1 but its last frame is left
 // partly filled (ragged), with the reader operations that are defined on a ragged buffer.
+// mode 4: as 0, and every writer only converts a source that is one frame SHORTER than its window into the window
+// (a conversion touches the common prefix and nothing beyond it) while one more goroutine per writer stores into
+// that last frame through a window of its own.
 func SharedRun(w *World, rng *rand.Rand, ty string, ch, roFrames, wFrames, R, W, opsPer, procs, mode int) {
+	prefix := mode == 4
+	if prefix {
+		mode = 0
+		if wFrames < 2 {
+			wFrames = 2
+		}
+	}
 	old := runtime.GOMAXPROCS(procs)
 	defer runtime.GOMAXPROCS(old)
 	w.Reset()
@@ -68,10 +78,15 @@ func SharedRun(w *World, rng *rand.Rand, ty string, ch, roFrames, wFrames, R, W,
 	}
 	ro := len(w.Views) - 1
 	wins := make([]int, W)
+	tails := make([]int, W)
 	for i := 0; i < W; i++ {
 		s := roFrames + i*wFrames
 		w.Slice(root, s, s+wFrames)
 		wins[i] = len(w.Views) - 1
+		if prefix {
+			w.Slice(root, s+wFrames-1, s+wFrames)
+			tails[i] = len(w.Views) - 1
+		}
 	}
 	kt := KindOf(ty)
 	// private conversion partners, allocated before the concurrent phase: readers use the shared window as the
@@ -119,7 +134,11 @@ func SharedRun(w *World, rng *rand.Rand, ty string, ch, roFrames, wFrames, R, W,
 			o := opts[rng.Intn(len(opts))]
 			wfn[i], sty = o[0], o[1]
 		}
-		wsrc[i] = w.spreadSource(sty, ch, wFrames+2) // longer than the window: only the window's length may be written
+		if prefix {
+			wsrc[i] = w.spreadSource(sty, ch, wFrames-1) // shorter than the window: its last frame is not the converter's
+		} else {
+			wsrc[i] = w.spreadSource(sty, ch, wFrames+2) // longer than the window: only the window's length may be written
+		}
 	}
 	// channel views are taken (and cached) before the concurrent phase
 	for c := 0; c < ch; c++ {
@@ -131,14 +150,23 @@ func SharedRun(w *World, rng *rand.Rand, ty string, ch, roFrames, wFrames, R, W,
 		for _, wi := range wins {
 			w.ChanShape(wi, c)
 		}
+		if prefix {
+			for _, ti := range tails {
+				w.ChanShape(ti, c)
+			}
+		}
+	}
+	G := R + W
+	if prefix {
+		G += W
 	}
 	nviews := len(w.Views)
 	type forked struct {
 		f   *World
 		buf *bytes.Buffer
 	}
-	fs := make([]forked, R+W)
-	seeds := make([]int64, R+W)
+	fs := make([]forked, G)
+	seeds := make([]int64, G)
 	for i := range fs {
 		seeds[i] = rng.Int63()
 		f, b := w.fork(seeds[i])
@@ -148,7 +176,7 @@ func SharedRun(w *World, rng *rand.Rand, ty string, ch, roFrames, wFrames, R, W,
 	start := make(chan struct{})
 	concurrentRecording = true
 	defer func() { concurrentRecording = false }()
-	for g := 0; g < R+W; g++ {
+	for g := 0; g < G; g++ {
 		wg.Add(1)
 		go func(g int) {
 			defer wg.Done()
@@ -234,6 +262,25 @@ func SharedRun(w *World, rng *rand.Rand, ty string, ch, roFrames, wFrames, R, W,
 							f.Read(ro, BuiltinTypes[r.Intn(len(BuiltinTypes))], l)
 						}
 					}
+				} else if g >= R+W { // mode 4: the goroutine that owns the last frame of writer (g-R-W)'s window
+					ti := tails[g-R-W]
+					switch r.Intn(4) {
+					case 0:
+						f.SetSample(ti, r.Intn(ch), f.NextStamp())
+					case 1:
+						f.Write(ti, kt, f.stamps(1+r.Intn(ch)))
+					case 2:
+						f.ChanSet(ti, r.Intn(ch), 0, f.NextStamp())
+					case 3:
+						f.Sample(ti, r.Intn(ch))
+					}
+				} else if prefix { // mode 4: conversions of a shorter source into the window; reads of the converted prefix
+					wi := wins[g-R]
+					if wfn[g-R] != "" && ty == kt && r.Intn(4) != 0 {
+						f.Convert(wfn[g-R], wsrc[g-R], wi)
+					} else {
+						f.Sample(wi, r.Intn(ch*(wFrames-1)))
+					}
 				} else {
 					wi := wins[g-R]
 					l := f.Views[wi].Len()
@@ -304,6 +351,21 @@ func driveShared(s *shardSet, rng *rand.Rand, thorough bool) ([]string, map[stri
 		SharedRun(s.Next(), rng, ty, ch, 1+rng.Intn(4), 1+rng.Intn(3), R, W, ops, procs, i%3)
 		extra["goroutines_max"] = 16
 		extra["concurrent_phases"]++
+	}
+	// prefix conversions (mode 4): every conversion family, common prefixes that are not multiples of 2, 4 or 8
+	np := 13
+	if thorough {
+		np = 80
+	}
+	for i := 0; i < np; i++ {
+		ch := 1 + (i+rng.Intn(2))%3
+		wf := 2 + rng.Intn(5)
+		if (ch*(wf-1))%4 == 0 {
+			wf++
+		}
+		SharedRun(s.Next(), rng, BuiltinTypes[i%13], ch, 1+rng.Intn(2), wf, 1, 1+rng.Intn(3), ops/2, []int{2, 4, 16}[i%3], 4)
+		extra["concurrent_phases"]++
+		extra["prefix_conversion_phases"]++
 	}
 	// large windows (>= 4096 samples per writer): a conversion that splits big blocks over helper goroutines must
 	// still be race-free within its own window
